@@ -208,6 +208,7 @@ async fn scenario(g: &Group, rng: &mut StdRng, sc: usize, panics: &Arc<parking_l
 	let rig = build(g.max_queue, g.buf_cap, string_ids, Duration::from_secs(4), sc as u64 + seed());
 	let tracer = rig.tracer.clone();
 	ENDED.with(|e| e.borrow_mut().clear());
+	unstarve_all();
 	tracer.ev(json!({"ev": "Reset", "sc": sc, "group": g.name, "string_ids": string_ids}));
 	set_observer(Some((rig.client.clone(), tracer.clone())));
 	let mut slots: BTreeMap<String, SubSlot> = BTreeMap::new();
@@ -240,6 +241,32 @@ async fn scenario(g: &Group, rng: &mut StdRng, sc: usize, panics: &Arc<parking_l
 			let (jh, ab) = start_op_abandonable(&rig, h, k, n, &slots);
 			tasks.push(jh);
 			abandon.insert(h.to_string(), ab);
+		} else if roll < 24 && !faulted && !abandon.is_empty() && !seen.is_empty() && rng.random_bool(0.5) {
+			// The callers do not get to run for a while (their tasks are starved): the peer answers what is on the wire, then the
+			// connection ends, the client winds the connection down - and only then the callers look at their futures.  A call
+			// that was answered has its answer.
+			for h in abandon.keys() {
+				starve(h);
+			}
+			let mut answered = 0;
+			for (id, kind) in seen.iter().rev().take(3) {
+				if kind == "batch" {
+					continue;
+				}
+				let m = peer.number(gen_answer(rng, *id, kind == "sub"));
+				let text = peer.text(&m);
+				npeer += 1;
+				answered += 1;
+				tracer.ev(json!({"ev": "PeerSend", "m": m}));
+				let _ = rig.peer_tx.send(PeerItem::Text(text, m));
+				settle(rng.random_range(0..2)).await;
+			}
+			if answered > 0 {
+				faulted = true;
+				inject(if rng.random_bool(0.5) { "recvErr" } else { "peerClose" }, &rig, &tracer);
+				settle(40).await;
+			}
+			unstarve_all();
 		} else if roll < 25 && !abandon.is_empty() {
 			// the application gives a future up before it has returned (a timeout around the call, a select!)
 			let hs: Vec<String> = abandon.keys().cloned().collect();
@@ -566,6 +593,7 @@ async fn scripted(g: &Group, rng: &mut StdRng, sc: usize, script: &Value, panics
 	let rig = build(g.max_queue, g.buf_cap, string_ids, Duration::from_secs(4), sc as u64 + seed());
 	let tracer = rig.tracer.clone();
 	ENDED.with(|e| e.borrow_mut().clear());
+	unstarve_all();
 	tracer.ev(json!({"ev": "Reset", "sc": sc, "group": g.name, "string_ids": string_ids, "scripted": true}));
 	set_observer(Some((rig.client.clone(), tracer.clone())));
 	let mut slots: BTreeMap<String, SubSlot> = BTreeMap::new();
@@ -664,6 +692,7 @@ async fn scripted(g: &Group, rng: &mut StdRng, sc: usize, script: &Value, panics
 /// no enabled step of the client left either - which is how "eventually" obligations (an unsubscribe is sent, a noticed
 /// fault shuts the client down) are checked on a finite trace.
 async fn quiet(rig: &Rig, tracer: &Tracer) {
+	unstarve_all();
 	if rig.faults.hold.swap(false, std::sync::atomic::Ordering::SeqCst) {
 		tracer.ev(json!({"ev": "Release"}));
 	}
